@@ -27,6 +27,11 @@ type uField struct {
 	// SayFalse prints the boolean attributes that are off explicitly (`primary = false`,
 	// `required = false`, `optional = false`): same declaration, different text
 	SayFalse bool
+	// Ext: a message type of another (always imported) package, given by its full name
+	// (timestamp / date / decimal / any); J5Type is the j5s type word, J5Kind the field ext kind
+	Ext string
+	// Container: "" | "array" | "map": the rest of the struct describes the item / value type
+	Container string
 }
 
 type eSchema struct {
@@ -125,9 +130,27 @@ func optBytes(s *string) string {
 	return "(Some " + vh.BytesTerm(*s) + ")"
 }
 
+// itemCoq is the ikind term of the item / value type of a container.
+func (u uField) itemCoq() string {
+	switch {
+	case u.Obj != "":
+		ctor := map[string]string{"": "IObject", "object": "IObject", "oneof": "IOneof", "enum": "IEnum"}[u.RefKind]
+		return fmt.Sprintf("(%s %s)", ctor, vh.BytesTerm(u.Obj))
+	case u.Ext != "":
+		return fmt.Sprintf("(IExt %s %s)", vh.BytesTerm(u.Ext), vh.BytesTerm(u.J5Kind))
+	}
+	return fmt.Sprintf("(IScalar %d %s)", u.PType, vh.BytesTerm(u.J5Kind))
+}
+
 func (u uField) coq() string {
 	kind := fmt.Sprintf("(KScalar %d %s)", u.PType, vh.BytesTerm(u.J5Kind))
-	if u.Obj != "" {
+	if u.Container == "array" {
+		kind = "(KArray " + u.itemCoq() + ")"
+	} else if u.Container == "map" {
+		kind = "(KMap " + u.itemCoq() + ")"
+	} else if u.Ext != "" {
+		kind = fmt.Sprintf("(KExt %s %s)", vh.BytesTerm(u.Ext), vh.BytesTerm(u.J5Kind))
+	} else if u.Obj != "" {
 		ctor := map[string]string{"": "KObject", "object": "KObject", "oneof": "KOneof", "enum": "KEnum"}[u.RefKind]
 		kind = fmt.Sprintf("(%s %s)", ctor, vh.BytesTerm(u.Obj))
 	} else if u.Key {
@@ -180,6 +203,11 @@ func (d *entityDecl) coq() string {
 var verbNames = map[int]string{1: "GET", 2: "POST", 3: "PUT", 4: "DELETE", 5: "PATCH"}
 
 func (u uField) j5sType() string {
+	if u.Container != "" {
+		item := u
+		item.Container = ""
+		return u.Container + ":" + item.j5sType()
+	}
 	if u.Obj != "" {
 		if u.RefKind == "" {
 			return "object:" + u.Obj
